@@ -6,6 +6,9 @@
 (*                                                                         *)
 (* params p: [k, T, outs : Seq(code) (one distinct otherwise-unused output  *)
 (*            key per listed action), eager, others : Seq([c, o]), red]     *)
+(*   or [tds : Seq(p)] for several tap-dance keys in one configuration      *)
+(*   (output keys distinct over all of them): one sub-monitor per key, for   *)
+(*   which every other key - tap-dance or not - is "another key".           *)
 (*                                                                         *)
 (* Accounting (everywhere): every `d outs[j]` consumes taps that were       *)
 (* really typed (lazy: j of them, eager: one); when kanata is idle with     *)
@@ -17,6 +20,14 @@
 (* extends the run and restarts the window; another key's press or the end  *)
 (* of the list ends it at once; the chosen action stays pressed until the   *)
 (* final release.                                                           *)
+(* Eager, past the end: "the count ends when ... the list is exhausted":    *)
+(* the tap after the one that performed the last listed action starts a new *)
+(* dance (action 1), the one after it performs action 2, ...                *)
+(* A dance also starts sharp when kanata is not idle only because of        *)
+(* another key's eager dance (flow: since the last idle tick every input    *)
+(* arrived alone between two ticks and no lazy dance was begun, so nothing  *)
+(* is queued or waiting when the press arrives): the press of a second      *)
+(* tap-dance key ends the first key's count and starts its own.             *)
 (***************************************************************************)
 EXTENDS Obs
 
@@ -25,8 +36,9 @@ OutOf(p, c) == LET I == {i \in DOMAIN p.others : p.others[i].c = c} IN
 OutIdx(p, o) == LET I == {i \in DOMAIN p.outs : p.outs[i] = o} IN
                 IF I = {} THEN 0 ELSE CHOOSE i \in I : TRUE
 MaxTaps(p) == Len(p.outs)
+Depth(p) == IF "depth" \in DOMAIN p THEN p.depth ELSE MaxTaps(p) + 2
 
-MonInit(p) ==
+SubInit(p) ==
   [p |-> p,
    taps |-> 0,        \* typed presses of k not yet consumed by an action (= sum of grp)
    grp |-> <<>>,      \* the unconsumed taps in groups: a group ends at another key's press
@@ -41,6 +53,11 @@ MonInit(p) ==
    cur |-> 0,         \* index of the action currently held by the run (lazy sharp), 0 = none
    pos |-> 0,         \* eager: position in the run of the last tap (sharp chain), 0 = fresh
    chain |-> FALSE,   \* eager: the chain of taps is in sync since a sharp start
+   succ |-> 0,        \* eager: taps in succession so far (each within T of the previous, no other key between),
+                      \*   counted across the end of the list, capped at Depth(p): how deep the composition explores
+   intr |-> FALSE,    \* eager: the current succession began by interrupting another key's dance (class marker only)
+   clean |-> FALSE,   \* eager: the succession started sharp and every input since arrived alone between two ticks
+                      \*   (then every dance in it starts sharp through `flow`, whatever the idle flag says)
    gapIn |-> 0, lastIdle |-> TRUE, quiet |-> p.red + 1, err |-> ""]
 
 AddTap(m) == IF m.grp = <<>> \/ m.sepNext
@@ -57,7 +74,8 @@ Consume(m, j) ==
   ELSE IF j = MaxTaps(p) THEN <<TRUE, [m EXCEPT !.grp = Tail(@), !.taps = @ - m.grp[1]]>>
   ELSE <<TRUE, [m EXCEPT !.grp = IF m.grp[1] = j THEN Tail(@) ELSE [@ EXCEPT ![1] = @ - j], !.taps = @ - j]>>
 
-MonIn(m, r) ==
+\* g = [flow, intr]: what the composition knows when the input arrives (see MonIn)
+SubIn(m, r, g) ==
   IF m.err # "" THEN m
   ELSE IF r.e \notin {"d", "u"} THEN Fail(m, "C17: input kind outside the instance")
   ELSE
@@ -66,14 +84,20 @@ MonIn(m, r) ==
         m0 == IF r.c = p.k /\ r.e = "d" THEN AddTap(mq)
               ELSE IF r.c # p.k /\ r.e = "d" THEN [mq EXCEPT !.sepNext = TRUE] ELSE mq
         inSync == m.gapIn = 0
-        startSharp == m.lastIdle /\ m.quiet > p.red /\ m.taps = 0 /\ inSync
+        startSharp == (m.lastIdle /\ m.quiet > p.red /\ m.taps = 0 /\ inSync)
+                      \/ (g.flow /\ m.taps = 0 /\ inSync)
     IN IF r.c = p.k
        THEN IF r.e = "d"
             THEN IF p.eager
                  THEN \* eager: position of this tap in the chain
-                      LET cont == m.chain /\ inSync /\ m.pos > 0 /\ m.pos < MaxTaps(p) /\ m.el < p.T IN
+                      \* (the list exhausted, the timeout passed or another key pressed: a new dance, position 1)
+                      LET cont == m.chain /\ inSync /\ m.pos > 0 /\ m.pos < MaxTaps(p) /\ m.el < p.T
+                          insucc == m.pos > 0 /\ m.el < p.T IN
                       [m0 EXCEPT !.chain = IF cont THEN TRUE ELSE startSharp,
                                  !.pos = IF cont THEN m.pos + 1 ELSE 1,
+                                 !.succ = IF insucc THEN OMin(m.succ + 1, Depth(p)) ELSE 1,
+                                 !.intr = IF insucc THEN m.intr ELSE g.intr,
+                                 !.clean = IF insucc THEN m.clean /\ inSync ELSE startSharp,
                                  !.el = 0]
                  ELSE IF m.run = "cnt" THEN [m0 EXCEPT !.unc = IF m.oth THEN @ ELSE @ + 1]
                  ELSE IF m.run = "none" /\ startSharp
@@ -81,10 +105,10 @@ MonIn(m, r) ==
                                  !.rem = 1 + p.T, !.el = 0, !.rels = 0, !.cur = 0]
                  ELSE m0
             ELSE [m0 EXCEPT !.rels = IF m.run # "none" THEN OMin(@ + 1, MaxTaps(p) + 1) ELSE @,
-                            !.chain = m.chain /\ inSync]
+                            !.chain = m.chain /\ inSync, !.clean = m.clean /\ inSync]
        ELSE IF r.e = "d"
-       THEN [m0 EXCEPT !.oth = TRUE, !.chain = FALSE, !.pos = 0]
-       ELSE [m0 EXCEPT !.chain = m.chain /\ inSync]
+       THEN [m0 EXCEPT !.oth = TRUE, !.chain = FALSE, !.pos = 0, !.succ = 0, !.intr = FALSE, !.clean = FALSE]
+       ELSE [m0 EXCEPT !.chain = m.chain /\ inSync, !.clean = m.clean /\ inSync]
 
 RECURSIVE Scan(_, _, _)
 \* expJ = the action index the sharp reference requires on this tick (0 = none allowed, -1 = no claim)
@@ -107,7 +131,7 @@ Scan(m, out, expJ) ==
        THEN Fail(m, "C17: the chosen action was released before the final release of the key")
        ELSE Scan(m, rest, expJ)
 
-MonTick(m, out, idle, cb) ==
+SubTick(m, out, idle, cb) ==
   IF m.err # "" THEN m
   ELSE
     LET p == m.p
@@ -143,14 +167,57 @@ MonTick(m, out, idle, cb) ==
                  /\ \E i \in DOMAIN out : out[i] = <<"u", p.outs[m3.cur]>>
               THEN [m3 EXCEPT !.run = "none", !.cur = 0] ELSE m3
         m5 == IF m4.run = "held" /\ idle /\ m.lastIdle /\ m.gapIn = 0 THEN [m4 EXCEPT !.run = "none", !.cur = 0] ELSE m4
-    IN [m5 EXCEPT !.el = OMin(T, p.T + 2), !.gapIn = 0, !.lastIdle = idle,
-                  !.quiet = IF out = <<>> THEN OMin(m5.quiet + 1, p.red + 1) ELSE 0]
+        m6 == [m5 EXCEPT !.el = OMin(T, p.T + 2), !.gapIn = 0, !.lastIdle = idle,
+                         !.quiet = IF out = <<>> THEN OMin(m5.quiet + 1, p.red + 1) ELSE 0]
+    \* eager: once the timeout has passed the chain is over (the next tap starts a new dance whatever the position was)
+    IN IF p.eager /\ T >= p.T THEN [m6 EXCEPT !.chain = FALSE, !.pos = 0, !.succ = 0, !.intr = FALSE, !.clean = FALSE] ELSE m6
+
+SubQuiet(m, idle) == m.run = "none" /\ m.taps = 0 /\ m.lastIdle = idle /\ m.quiet > m.p.red /\ m.gapIn = 0
+                     /\ m.el >= m.p.T + 2
+
+\* ---- the composition: one sub-monitor per tap-dance key -------------------------------------
+ParamsOf(p) == IF "tds" \in DOMAIN p THEN p.tds ELSE <<p>>
+FirstErr(subs) == LET I == {i \in DOMAIN subs : subs[i].err # ""} IN
+                  IF I = {} THEN "" ELSE subs[CHOOSE i \in I : \A j \in I : i <= j].err
+\* a dance of key j is in progress (its count is still open as far as the inputs tell)
+Dancing(s) == IF s.p.eager THEN s.pos > 0 /\ s.el < s.p.T ELSE s.run = "cnt"
+
+MonInit(p) ==
+  LET ps == ParamsOf(p) IN
+  [subs |-> [i \in DOMAIN ps |-> SubInit(ps[i])],
+   flow |-> TRUE,     \* since the last idle tick every input arrived alone between two ticks and no lazy dance was begun
+   gin |-> 0,         \* inputs since the last tick (capped at 2)
+   err |-> ""]
+
+MonIn(m, r) ==
+  IF m.err # "" THEN m
+  ELSE
+    LET subs == [i \in DOMAIN m.subs |->
+                   SubIn(m.subs[i], r, [flow |-> m.flow /\ m.gin = 0,
+                                        intr |-> \E j \in DOMAIN m.subs : j # i /\ Dancing(m.subs[j])])]
+        lazyPress == r.e = "d" /\ \E i \in DOMAIN m.subs : m.subs[i].p.k = r.c /\ ~m.subs[i].p.eager
+    IN [m EXCEPT !.subs = subs, !.err = FirstErr(subs), !.gin = OMin(@ + 1, 2),
+                 !.flow = @ /\ m.gin = 0 /\ ~lazyPress]
+
+MonTick(m, out, idle, cb) ==
+  IF m.err # "" THEN m
+  ELSE LET subs == [i \in DOMAIN m.subs |-> SubTick(m.subs[i], out, idle, cb)] IN
+       [m EXCEPT !.subs = subs, !.err = FirstErr(subs), !.gin = 0, !.flow = IF idle THEN TRUE ELSE @]
 
 RECURSIVE MonSilent(_, _, _, _)
 MonSilent(m, n, idle, cb) ==
   IF n = 0 \/ m.err # "" THEN m
-  ELSE IF m.run = "none" /\ m.taps = 0 /\ m.lastIdle = idle /\ m.quiet > m.p.red /\ m.gapIn = 0
-          /\ m.el >= m.p.T + 2
+  ELSE IF (\A i \in DOMAIN m.subs : SubQuiet(m.subs[i], idle)) /\ m.gin = 0 /\ (idle => m.flow)
   THEN m
   ELSE MonSilent(MonTick(m, <<>>, idle, cb), n - 1, idle, cb)
+
+\* ---- helpers for the generated instances -----------------------------------------------------
+\* histories that pile up more unconsumed taps than one full list + 1 are not expanded further
+TapsBounded(m) == \A i \in DOMAIN m.subs : m.subs[i].taps <= MaxTaps(m.subs[i].p) + 1
+\* class coverage: the press just typed is (a) tap L+1, L+2, ... of an eager succession (the count restarted after
+\* the list was exhausted) or (b) tap >= 2 of an eager dance that began by interrupting another key's dance
+CoverClass(m) == \E i \in DOMAIN m.subs :
+                   LET s == m.subs[i] IN
+                   s.p.eager /\ s.el = 0 /\ s.gapIn = 1 /\ s.chain /\ s.clean
+                   /\ (s.succ > MaxTaps(s.p) \/ (s.intr /\ s.pos >= 2))
 =============================================================================
